@@ -9,6 +9,16 @@ CHECKS = {
         note="Coq kernel + vm_compute (bigQ execution instance only in the correspondence); stdlib Reals axioms for the real-valued theorem; hand-written model of Circuit.bs/ps/loss/barrier/mode_swaps/add, CompiledCircuit.add and components.get_unitary; floats vs exact rationals at 1e-9.",
         technique="Coq proof (induction over the program, unitarity of embeddings over an abstract *-ring) + model/implementation correspondence",
         ref="6 C01"),
+    "C02": dict(
+        text="Coq theorems for all circuits/mode numbers: user-mode numbering = rank among non-ancilla modes (never an ancilla, order preserving), add accepted iff it fits into the non-ancilla modes (else ModeRangeError), later primitives act only on non-ancilla modes and are the identity elsewhere. The matrix-level wiring statement is NOT proved in Coq: it is decided per run by the correspondence between the executable model of Circuit.add and /repo on random circuit trees (depth<=3, heralds in any order, in!=out herald modes, ancillas inside spans) and by an independent numpy wiring reference (U_R = E.iota(U_P) for some ancilla placement) applied to every accepted add.",
+        note="Coq kernel + vm_compute; theorems closed under the global context; hand-written model of Circuit.add/_map_mode/_add_empty_mode/circuit_utils; wiring theorem missing (partial): correspondence + oracle carry it.",
+        technique="Coq proof (fold invariants over the ancilla list) + model/implementation correspondence + independent wiring oracle",
+        ref="6 C02"),
+    "C17": dict(
+        text="20 Coq theorems (closed, generic over any commutative ring) over the model of SimulationResult/SamplingResult: index coherence for all contents, mapping image/row conservation/composition/idempotence for every set-iteration order, refusal for amplitude results, exact sampling counts; tied to /repo by a correspondence run and an independent brute-force oracle.",
+        note="Coq kernel + vm_compute; no axioms; hand-written model tied to the code by the correspondence run; plotting/printing not modelled.",
+        technique="Coq proof (induction over association lists) + model/implementation correspondence",
+        ref="6 C17"),
     "C18": dict(
         text="Unbounded Coq theorems over the hand-written model of State/AnnotatedState/heralding_utils/fock_basis/conversion (equality, +/merge laws, slicing, label-multiset equality, herald insertion/removal round trip for every state and herald dictionary, Fock-basis exactness, dB inverses over R) plus a correspondence run tying the model to /repo on generated inputs and a direct oracle of the property on the implementation.",
         note="Coq kernel + vm_compute; stdlib Reals axioms for the dB theorem only; model is hand-written and tied to the code by the per-run correspondence check; random_unitary/permutation and float dB round trip checked by the Python oracle only.",
